@@ -35,7 +35,7 @@ func isMutatorCall(ins ssa.Instruction) (string, bool) {
 }
 
 func checkC02(p *core.Prog, r *core.Report) {
-	r.Explanation = "Decides structural necessary conditions of owner-only release and exact depth: (R1) in UnLock the hold that is tombstoned, decremented and removed is on every path the non-nil result of GetLockedLock(request) or, only under the unlock-first flag, the manager's oldest holder; (R2) every refusal reply of Lock/UnLock (UNLOCK_ERROR, UNOWN_ERROR, LOCK_ACK_WAITING, STATE_ERROR, TIMEOUT, and LOCKED_ERROR without the update flag) is reached without any engine mutation on its path (stores to hold/queue/value state, mutator calls) - the cancel-wait hand-over excepted; (R3) UnLock's success paths lower the key's depth exactly once, by 1 only under Rcount>0 with depth>1 (no removal unless the depth reaches 0) or when the depth is <=1, otherwise by the hold's whole depth, with exactly one RemoveLock; (R4) every path to the re-entrant depth increment in Lock carries the guards owner-found, not ack-pending, depth<0xff, depth<=Rcount, not priority-flagged, Expried!=0; (R5) cancelWaitLock answers the canceller LOCKED_ERROR and the cancelled waiter UNLOCK_ERROR, and the not-found path UNLOCK_ERROR. (R6) LockManager.RemoveLock keeps the LockId index of the holder list in step: a hold promoted to oldest holder, and a released non-oldest hold, are deleted from the index on the same path (the index lookup has no liveness test). NOT decided: that the holder containers otherwise return the matching hold (inline slice vs map-backed queue), arithmetic beyond the guards."
+	r.Explanation = "Decides structural necessary conditions of owner-only release and exact depth: (R1) in UnLock the hold that is tombstoned, decremented and removed is on every path the non-nil result of GetLockedLock(request) or, only under the unlock-first flag, the manager's oldest holder; (R2) every refusal reply of Lock/UnLock (UNLOCK_ERROR, UNOWN_ERROR, LOCK_ACK_WAITING, STATE_ERROR, TIMEOUT, and LOCKED_ERROR without the update flag) is reached without any engine mutation on its path (stores to hold/queue/value state, mutator calls) - the cancel-wait hand-over excepted; (R3) UnLock's success paths lower the key's depth exactly once, by 1 only under Rcount>0 with depth>1 (no removal unless the depth reaches 0) or when the depth is <=1, otherwise by the hold's whole depth, with exactly one RemoveLock; (R4) every path to the re-entrant depth increment in Lock carries the guards owner-found, not ack-pending, depth<0xff, depth<=Rcount, not priority-flagged, Expried!=0; (R5) cancelWaitLock answers the canceller LOCKED_ERROR and the cancelled waiter UNLOCK_ERROR, and the not-found path UNLOCK_ERROR. (R6) LockManager.RemoveLock keeps the LockId index of the holder list in step: a hold promoted to oldest holder, and a released non-oldest hold, are deleted from the index on the same path (the index lookup has no liveness test). (R7) cancelWaitLock selects a queue entry only on the not-answered side of a test of that entry's timeouted flag (an answered entry with the same LockId must not shadow the live request behind it). NOT decided: that the holder containers otherwise return the matching hold (inline slice vs map-backed queue), arithmetic beyond the guards."
 	r.Assumptions = []string{"Go type checker and go/ssa are correct for /repo", "GetLockedLock / LockManagerLockQueue.GetLock return a hold with the requested LockId (container behaviour, C20 not claimed)"}
 	c02R1(p, r)
 	c02R2(p, r)
@@ -43,6 +43,7 @@ func checkC02(p *core.Prog, r *core.Report) {
 	c02R4(p, r)
 	c02R5(p, r)
 	c02R6(p, r)
+	c02R7(p, r)
 }
 
 func c02R1(p *core.Prog, r *core.Report) {
@@ -448,4 +449,86 @@ func c02R6(p *core.Prog, r *core.Report) {
 		},
 	})
 	ex.Run(fn, nil)
+}
+
+// c02R7: answered requests (timed out, cancelled) stay parked in the wait
+// queue until they reach its head. cancelWaitLock looks a waiter up by LockId,
+// so an answered entry with the same LockId must not be selected and must not
+// end the search - otherwise it shadows the live request queued behind it, the
+// canceller is told UNLOCK_ERROR and the live request is later granted although
+// its owner cancelled it. Structurally: every assignment of a queue entry to
+// the candidate is dominated by the not-answered side of a test of that
+// entry's timeouted flag.
+func c02R7(p *core.Prog, r *core.Report) {
+	const rule = "C02/R7"
+	r.Rule(rule, "cancelWaitLock selects a queue entry as the waiter to cancel only on the not-answered side of a test of that entry's timeouted flag", 1)
+	fn := mustFunc(p, r, "server.(*LockDB).cancelWaitLock")
+	if fn == nil {
+		return
+	}
+	isElem := func(v ssa.Value) bool {
+		u, ok := v.(*ssa.UnOp)
+		if !ok {
+			return false
+		}
+		_, ok = u.X.(*ssa.IndexAddr)
+		return ok && core.TypeKey(v.Type()) == "server.Lock"
+	}
+	// blocks entered on the not-answered side of "elem.timeouted"
+	live := map[ssa.Value][]*ssa.BasicBlock{}
+	for _, b := range fn.Blocks {
+		if len(b.Instrs) == 0 {
+			continue
+		}
+		iff, ok := b.Instrs[len(b.Instrs)-1].(*ssa.If)
+		if !ok {
+			continue
+		}
+		cond, side := iff.Cond, 1
+		if n, ok := cond.(*ssa.UnOp); ok && n.Op.String() == "!" {
+			cond, side = n.X, 0
+		}
+		ld, ok := cond.(*ssa.UnOp)
+		if !ok {
+			continue
+		}
+		fa, ok := ld.X.(*ssa.FieldAddr)
+		if !ok {
+			continue
+		}
+		if k := core.FieldKeyOf(fa.X.Type(), fa.Field); k.Type == "server.Lock" && k.Field == "timeouted" && isElem(fa.X) {
+			live[fa.X] = append(live[fa.X], b.Succs[side])
+		}
+	}
+	n := 0
+	for _, b := range fn.Blocks {
+		for _, ins := range b.Instrs {
+			phi, ok := ins.(*ssa.Phi)
+			if !ok || core.TypeKey(phi.Type()) != "server.Lock" {
+				continue
+			}
+			for i, e := range phi.Edges {
+				if !isElem(e) {
+					continue
+				}
+				n++
+				pred := b.Preds[i]
+				key := fmt.Sprintf("server.(*LockDB).cancelWaitLock: candidate assignment#%d", n)
+				ok := false
+				for _, lb := range live[e] {
+					if lb.Dominates(pred) {
+						ok = true
+					}
+				}
+				if ok {
+					r.Hold(rule, key, p.InstrPos(phi), "entry selected on the not-answered side of its timeouted test")
+				} else {
+					r.Violate(rule, key, p.InstrPos(phi), "a wait-queue entry becomes the waiter to cancel without its timeouted flag having been tested clear for it: an already answered entry with the same LockId shadows the live request behind it (canceller gets UNLOCK_ERROR, the cancelled request is granted later)", nil)
+				}
+			}
+		}
+	}
+	if n == 0 {
+		r.Violate(rule, "server.(*LockDB).cancelWaitLock: candidate assignment", p.Pos(fn.Pos()), "no selection of a wait-queue entry found in cancelWaitLock", nil)
+	}
 }
